@@ -44,3 +44,62 @@ PROPS["C07"] = {
         {"name": "fuzz", "mode": "fuzz", "run": "FuzzC07", "tiers": ["thorough"], "fuzztime": 90, "timeout": 600},
     ],
 }
+
+PROPS["C06"] = {
+    "level": "exploration",
+    "rule": ("Specs are built from a feature placement: for each of the 7 version-gated features (mount type, device-node hostPath, "
+             "intelRdt, additionalGids, annotations, digit-first device name, dotted class) a set of places (spec level or device k of n). "
+             "Exhaustive part: every feature absent or at exactly one place, n = 1..3 devices, every device order, every released version "
+             "(29 declared strings incl. unreleased ones on 1/8 of the Specs). Rapid part: n <= 4, arbitrary subsets of places, random "
+             "declared strings. Oracle: model.RequiredVersion (max over the introduction versions of the statement) and 'released and >= "
+             "minimum'; metamorphic: device permutations give the same minimum; ReadSpec on a file agrees (1/16..1/64 of cases). "
+             "Non-trivial iff >= 2 devices and a feature sits in a device that is not last in the order; distinct = distinct (placement, order, declared)."),
+    "exhaustive_part": "all 2^7 feature subsets x all single placements for 1..3 devices x all device orders x all 7 released versions",
+    "assumptions": ["introduction versions as listed in the statement / SPEC.md table", "a leading 'v' in the declared version is a don't-care and not generated"],
+    "manifest": {
+        "text": ("Complete enumeration of single-placement feature combinations for up to 3 devices in every order against every released version, "
+                 "plus random multi-placement Specs with up to 4 devices and arbitrary declared strings; the expected minimum comes from an "
+                 "independent model. Larger device counts and feature kinds not listed in the statement are not covered."),
+        "note": "trusted: model/version.go (feature table from the statement), rapid",
+        "technique": "property-based testing: bounded exhaustive enumeration + rapid, reference model oracle, permutation metamorphic relation",
+    },
+    "health": {"quick": {"feature-in-non-last-device": 1000, "declared-unreleased": 500, "mountType@device": 500, "hostPath@device": 500}},
+    "units": [
+        {"name": "regress", "mode": "plain", "run": "TestC06Regress"},
+        {"name": "exhaustive", "mode": "plain", "run": "TestC06Exhaustive", "shards": 16},
+        {"name": "rapid", "mode": "rapid", "run": "TestC06Rapid", "checks": {"quick": 400000, "thorough": 6000000}},
+    ],
+}
+
+PROPS["C05"] = {
+    "level": "exploration",
+    "rule": ("A library-valid Spec is drawn (gen.Spec: every optional member independently present, 1..4 devices, version >= the model's "
+             "minimum), turned into a JSON tree and, for 3 of 4 cases, given exactly one defect drawn from a table of ~110 kinds "
+             "(unknown members at every level, unreleased / too-low versions per gated feature, malformed kinds, device list and device "
+             "defects, empty edits, malformed env / device nodes / hooks / mounts / RDT class ids / GIDs, bad or oversized annotations, null "
+             "list entries, wrong JSON types) at a drawn position (spec level, first / middle / last device, first / last list element). "
+             "Each document is encoded as JSON and as block YAML (harness emitter, verified to decode back to the same tree) and put "
+             "through three admission routes: ReadSpec, a cache over a directory holding only that file (Refresh error, GetErrors key, "
+             "devices listed) and WriteSpec of the decoded struct when representable. Expected verdict is known by construction. "
+             "The table unit enumerates every defect kind at every position on one fixed three-device document. Non-trivial iff the "
+             "document has >= 2 devices and the defect (or, for valid documents, the version-gating feature) is in a device that is not "
+             "last; distinct = distinct document trees."),
+    "exhaustive_part": "the defect-kind x position table on the fixed rich document (table unit) is enumerated completely; the rapid unit samples",
+    "assumptions": ["documents with duplicate keys, a leading 'v' in the version, names longer than 63 characters and numbers/booleans "
+                    "in place of strings are stated don't-cares and are not generated",
+                    "an absent/empty RDT class id is treated as 'no class id given' (valid)"],
+    "manifest": {
+        "text": ("Random valid Specs and single-defect mutants of them, in both encodings, through all three admission routes, with the "
+                 "verdict known by construction; plus the complete defect x position table on one rich document. Documents with several "
+                 "interacting defects and defect kinds outside the table are not covered."),
+        "note": "trusted: the Spec generator emits only SPEC.md-valid documents (gen/spec.go), the defect table really violates SPEC.md, the harness YAML emitter (self-checked against yaml.v3 per case)",
+        "technique": "property-based testing: valid-by-construction generator + single-defect mutation, oracle by construction, differential over encodings and admission routes",
+    },
+    "health": {"quick": {"valid": 500, "defect": 2000, "defect-in-non-last-device": 300, "where:spec": 200, "where:device-first": 200,
+                         "where:device-middle": 30, "where:device-last": 200}},
+    "units": [
+        {"name": "regress", "mode": "plain", "run": "TestC05Regress"},
+        {"name": "table", "mode": "plain", "run": "TestC05Table", "shards": 4},
+        {"name": "rapid", "mode": "rapid", "run": "TestC05Rapid", "checks": {"quick": 40000, "thorough": 800000}},
+    ],
+}
